@@ -14,9 +14,11 @@ VERIF = runner.VERIF
 
 # runs per tier (count-bounded so a batch is exactly repeatable; the wall cap
 # can only shorten it and the evidence then says so)
-QUICK_RUNS = {'default': 5000, 'C01': 2000, 'C04': 2000, 'C14': 1500,
-              'C15': 700, 'C02': 4000, 'C03': 4000, 'C12': 3000,
-              'C08': 4000}
+QUICK_RUNS = {'default': 5000, 'C01': 4000, 'C04': 4000, 'C14': 1500,
+              'C15': 700, 'C02': 6000, 'C03': 6000, 'C12': 3000,
+              'C08': 4000, 'C06': 10000, 'C07': 10000, 'C13': 8000,
+              'C18': 8000, 'C19': 8000, 'C10': 8000, 'C11': 8000,
+              'C09': 8000}
 THOROUGH_FACTOR = 12
 QUICK_BUDGET = 150.0
 THOROUGH_BUDGET = 900.0
